@@ -59,7 +59,7 @@ def judge(ctx, scens, label, stats):
                                                 timeout=2400)
         for r in results:
             stats['tlc_states'] += r.generated
-        for tid, (nf, status, v) in sorted(verdicts.items()):
+        for tid, (nf, status, cursor, v) in sorted(verdicts.items()):
             sc, (rn, rf) = scens[tid - 1], res[tid - 1]
             stats['scenarios'] += 1
             stats['fills'] += nf
@@ -80,12 +80,60 @@ def judge(ctx, scens, label, stats):
                 ctx.nontrivial.add((label, sc['tf'], sc['chunk'], tid))
             if v != "ok":
                 ctx.violation("whole:" + v, "scenario %s/%d (lattice %d, chunk %d, trading %dm, start %d, lev %d, fee %s): model and "
-                              "code differ: %s" % (label, tid, sc['K'], sc['chunk'], sc['tf'], sc['start'], sc['lev'], sc['fee'], v),
+                              "code differ: %s (after %d projections)" % (label, tid, sc['K'], sc['chunk'], sc['tf'], sc['start'], sc['lev'],
+                                                                           sc['fee'], v, cursor),
                               {"scenario": sc})
             elif len(stats['samples']) < 2 and nf >= 3 and status == 'run':
                 stats['samples'].append({"scenario": {k: sc[k] for k in sc if k != 'hist'}, "steps": sc['hist'][:6],
                                          "normal_projections": rn['proj'][:4], "trades": rn['trades'][:2],
                                          "equity_samples": rn['daily']})
+
+
+def judge2(ctx, scens, label, stats):
+    """two symbols on one wallet: same procedure with WholeRun2 / TraceSimWhole2"""
+    if not scens:
+        return
+    res = W.run_wholes2(scens)
+    groups = collections.defaultdict(list)
+    for j, (sc, (rn, rf)) in enumerate(zip(scens, res)):
+        groups[(sc['start'], sc['lev'], tuple(sc['fee']))].append(W.whole_trace2(j + 1, sc, rn, rf))
+    for key, tr in sorted(groups.items()):
+        d = ctx.sub("whole2-%s-%d-%d-%d-%d" % (label, key[0], key[1], key[2][0], key[2][1]))
+        sc0 = scens[tr[0]['id'] - 1]
+        verdicts, results = tlc.validate_traces("TraceSimWhole2", W.whole_cfg(d, sc0, LIQFIX[0]), tr, d,
+                                                parts=min(16, max(1, len(tr) // 8)), timeout=2400)
+        for r in results:
+            stats['tlc_states'] += r.generated
+        for tid, (nf, status, cursor, v) in sorted(verdicts.items()):
+            sc, (rn, rf) = scens[tid - 1], res[tid - 1]
+            stats['two_symbol_scenarios'] += 1
+            stats['two_symbol_fills'] += nf
+            stats['two_symbol_status'][status] += 1
+            stats['minutes'] += len(rn['proj']) + len(rf['proj'])
+            both = any(p['qa'] != 0 and p['qb'] != 0 for p in rn['proj'])
+            stats['two_symbol_both_positions_open'] += 1 if both else 0
+            if nf >= 2 and status == 'run':
+                ctx.nontrivial.add((label, 'two-symbols', sc['tf'], sc['chunk'], tid))
+            if v != "ok":
+                ctx.violation("whole2:" + v, "two-symbol scenario %s/%d (lattice %d, chunk %d, trading %dm, start %d, lev %d, fee %s): model "
+                              "and code differ: %s (after %d projections)" % (label, tid, sc['K'], sc['chunk'], sc['tf'], sc['start'],
+                                                                              sc['lev'], sc['fee'], v, cursor), {"scenario2": sc})
+
+
+def pair_up(scens, rng, limit):
+    """single-symbol scenarios of equal shape -> two-symbol scenarios (A's script on BTC-USDT, B's on ETH-USDT)"""
+    by = collections.defaultdict(list)
+    for sc in scens:
+        by[(sc['tf'], sc['chunk'], sc['start'], sc['lev'], tuple(sc['fee']), tuple(len(e['raw']) for e in sc['hist']))].append(sc)
+    out = []
+    for key, lst in sorted(by.items(), key=lambda kv: str(kv[0])):
+        rng.shuffle(lst)
+        for a, b in zip(lst[0::2], lst[1::2]):
+            p = W.pair_scenarios(a, b)
+            if p:
+                out.append(p)
+    rng.shuffle(out)
+    return out[:limit]
 
 
 def from_tlc(r, chunk, tf, K, start, lev, fee):
@@ -149,8 +197,9 @@ def run(ctx):
     # ---------------- R: simulated behaviours, each replayed on the code
     rng = random.Random(ctx.seed)
     stats = dict(scenarios=0, fills=0, minutes=0, tlc_states=0, status=collections.Counter(), hook=collections.Counter(),
-                 with_trades=0, with_daily_sample=0, with_liquidate=0, with_edit=0, samples=[])
-    num = ctx.pick(60, 600)
+                 with_trades=0, with_daily_sample=0, with_liquidate=0, with_edit=0, samples=[], two_symbol_scenarios=0,
+                 two_symbol_fills=0, two_symbol_status=collections.Counter(), two_symbol_both_positions_open=0)
+    num = ctx.pick(40, 600)
     sims = [(5, 3, 3, 12, 700, 1, (1, 64)), (4, 1, 1, 6, 400, 1, (1, 16)), (5, 1, 3, 9, 400, 2, (0, 1)), (6, 5, 5, 15, 2000, 2, (1, 64)),
             (4, 3, 3, 9, 400, 1, (0, 1)), (5, 3, 15, 30, 700, 2, (1, 16))]
     sjobs = []
@@ -159,27 +208,36 @@ def run(ctx):
                           cfg_text=sw_cfg(K, ch, tf, n, [1, 2], ["go", "open", "rel"], True, True, True, start, lev, fee, INV + ["Export"])))
     sres = tlc.run_parallel(sjobs, max_procs=6)
     n_beh = 0
+    tlc_scens = []
     for (K, ch, tf, n, start, lev, fee), r in zip(sims, sres):
         if r.violation:
             raise Machinery("a simulated behaviour violates %s:\n%s" % (r.violation["name"], r.violation["trace"][-4000:]))
         ctx.add_tlc(r, "SimWhole -simulate K=%d chunk=%d trading=%d minutes=%d start=%d lev=%d fee=%s" % (K, ch, tf, n, start, lev, fee))
         sc = from_tlc(r, ch, tf, K, start, lev, fee)
         n_beh += len(sc)
+        tlc_scens += sc
         judge(ctx, sc, "tlc-%d-%d-%d" % (K, ch, tf), stats)
     ctx.log("R done: %d behaviours replayed" % n_beh)
     # ---------------- T: random scenarios incl. 1440-minute prefixes (daily equity sample)
-    n_rand = ctx.pick(300, 6000)
+    n_rand = ctx.pick(200, 6000)
     rs = [W.rand_whole(rng) for _ in range(n_rand)] + [W.rand_whole(rng, pad=True) for _ in range(ctx.pick(6, 60))]
     for off in range(0, len(rs), 1500):
         judge(ctx, rs[off:off + 1500], "random-%d" % off, stats)
-    ctx.evaluations = stats['scenarios']
+    # ---------------- two symbols on one wallet: pairs of TLC-generated behaviours and of random scenarios
+    two = pair_up(tlc_scens, rng, ctx.pick(120, 1500)) + pair_up([sc for sc in rs if len(sc['hist']) < 40], rng, ctx.pick(60, 1500))
+    judge2(ctx, two, "pairs", stats)
+    ctx.log("two-symbol phase: %d scenarios" % stats['two_symbol_scenarios'])
+    ctx.evaluations = stats['scenarios'] + stats['two_symbol_scenarios']
     ctx.coverage.update({
-        "traces_validated_against_impl": stats['scenarios'], "behaviours_generated_by_tlc_and_replayed": n_beh,
-        "real_backtests_run": 2 * stats['scenarios'], "projections_compared": stats['minutes'], "fills_of_the_normal_side": stats['fills'],
+        "traces_validated_against_impl": stats['scenarios'] + stats['two_symbol_scenarios'], "behaviours_generated_by_tlc_and_replayed": n_beh,
+        "real_backtests_run": 2 * (stats['scenarios'] + stats['two_symbol_scenarios']), "projections_compared": stats['minutes'], "fills_of_the_normal_side": stats['fills'],
         "trace_states_checked_by_tlc": stats['tlc_states'], "runs_by_final_status": dict(stats['status']),
         "scenarios_with_hook": dict(stats['hook']), "scenarios_with_closed_trades": stats['with_trades'],
         "scenarios_with_daily_equity_sample": stats['with_daily_sample'], "scenarios_with_liquidate": stats['with_liquidate'],
         "scenarios_with_stop_loss_edit": stats['with_edit'], "samples": stats['samples'],
+        "two_symbol_scenarios": stats['two_symbol_scenarios'], "two_symbol_fills": stats['two_symbol_fills'],
+        "two_symbol_runs_by_final_status": dict(stats['two_symbol_status']),
+        "two_symbol_scenarios_with_both_positions_open": stats['two_symbol_both_positions_open'],
         "rule": "behaviours from tlc -simulate over six constant sets (lattice 4-6, chunks 1/3/5, trading 1m/3m/5m/15m) plus random "
                 "scenarios; every one is run on both real simulators; non-trivial = >= 2 fills and a completed run; distinct by "
                 "generator x index",
@@ -187,9 +245,15 @@ def run(ctx):
 
 
 def replay(ctx, rp):
-    sc = rp["payload"]["scenario"]
     R.warm_parent()
     LIQFIX[0] = W.detect_liqfix()
+    if "scenario2" in rp["payload"]:
+        stats = dict(tlc_states=0, two_symbol_scenarios=0, two_symbol_fills=0, two_symbol_status=collections.Counter(), minutes=0,
+                     two_symbol_both_positions_open=0)
+        judge2(ctx, [rp["payload"]["scenario2"]], "replay", stats)
+        print("replay (two symbols): %s, violations %d" % (dict(stats['two_symbol_status']), len(ctx.violations)))
+        return
+    sc = rp["payload"]["scenario"]
     stats = dict(scenarios=0, fills=0, minutes=0, tlc_states=0, status=collections.Counter(), hook=collections.Counter(),
                  with_trades=0, with_daily_sample=0, with_liquidate=0, with_edit=0, samples=[])
     judge(ctx, [sc], "replay", stats)
